@@ -46,6 +46,8 @@ def search(chk, broken):
     n = 15 if (chk.tier == 'quick' and not broken) else 600
     evals = 0
     for _ in range(n):
+        if chk.over():
+            break
         cfg = sg.gen_config(rng, 0.7)
         cfg.pop('cMinimumVelocity', None)
         calc = pbc.Calculator(_config=cfg)
